@@ -46,3 +46,11 @@ func (s *SessionManager) VerifHasConn(connID string) (inMap bool, control bool) 
 	s.connLock.RUnlock()
 	return inMap, s.clientRegistry.GetByConnID(connID) != nil
 }
+
+// VerifAddr is the address the cross-node listener accepts frames on (port 0 = picked by the kernel).
+func (l *CrossNodeListener) VerifAddr() string {
+	if l.listener == nil {
+		return ""
+	}
+	return l.listener.Addr().String()
+}
